@@ -48,6 +48,7 @@ type Engine struct {
 	ghostDecls map[string]string // ghost name -> type text
 	ghostPkg   map[string]string
 	localGhost map[string]bool
+	cache      *verdictCache
 	chanGhostT map[string]types.Type // ghost event variables of named channels ($sends_x, $sent_x, $recvs_x, $received_x)
 }
 
